@@ -499,6 +499,7 @@ func Main(r *core.Run) {
 	r.Sample(map[string]any{"value": cases[len(cases)/3].V.String(), "proto": cases[len(cases)/2].Proto.String(), "impl": cases[len(cases)/2].Impl})
 	r.Set("value_cases", len(cases))
 	histories(r)
+	libraryStores(r)
 }
 
 func Replay(r *core.Run, mode string, raw json.RawMessage) {
@@ -510,6 +511,12 @@ func Replay(r *core.Run, mode string, raw json.RawMessage) {
 		}
 		fs, _ := Check(c)
 		r.Report("value", c, fs)
+	case "library-store":
+		var c LibCase
+		if err := json.Unmarshal(raw, &c); err != nil {
+			panic(err)
+		}
+		r.Report("library-store", c, CheckLibStore(c))
 	case "history":
 		var h History
 		if err := json.Unmarshal(raw, &h); err != nil {
